@@ -274,6 +274,37 @@ def worker(case, led):
                           (name, n, method, "limit"), {"method": method}, {"model": name, "nsites": n, "method": method, "M": lim, "seed": seed})
             except Exception as e:
                 led.ok(f"skipped:evolve[{method}]:small_M_raised", f"Mps._evolve_{method}", (name, n, method, "limit", type(e).__name__), nontrivial=False)
+        # two-site scheme with SITE-DEPENDENT limits (compress_config.max_dims): (a) limits equal to the complete bond dimensions lose nothing in either
+        # starting direction, (b) ragged limits are respected bond by bond
+        if n >= 3:
+            from renormalizer.utils import CompressConfig, CompressCriteria
+            dims_ = [b.nbas for b in model.basis]
+            full = [1] + [int(min(np.prod(dims_[:k]), np.prod(dims_[k:]), 64)) for k in range(1, n)] + [1]
+            for start in ("left", "right"):
+                a = a0.copy().to_complex()
+                a = a.ensure_left_canonical() if start == "left" else a.ensure_right_canonical()
+                v0_ = S.dense(a)
+                for tagl, lims in (("complete", list(full)), ("ragged", [1] + [int(max(1, min(f, int(rng.integers(1, 5))))) for f in full[1:-1]] + [1])):
+                    x = a.copy()
+                    Dn.set_evolve(x, "tdvp_ps2", M=64, ivp_solver="krylov")
+                    cfg = CompressConfig(CompressCriteria.fixed, max_bonddim=64)
+                    cfg.max_dims = np.array(lims, dtype=int)
+                    x.compress_config = cfg
+                    key = (name, n, "ps2-per-bond", start, tagl)
+                    rep = {"model": name, "nsites": n, "start": start + "-canonical", "max_dims": lims, "seed": seed}
+                    try:
+                        r = x.evolve(H, 0.3 / hn)
+                    except Exception as e:
+                        led.ok("skipped:evolve[tdvp_ps2]:per_bond_raised", "Mps._evolve_tdvp_ps2", key + (type(e).__name__,), nontrivial=False)
+                        continue
+                    led.check(all(b <= l for b, l in zip(r.bond_dims, lims)), "post:Mps.evolve[tdvp_ps2]:per_bond_limits_respected", "MatrixProduct._update_mps",
+                              f"bond dims {list(r.bond_dims)} exceed the per-bond limits {lims}", key + ("bd",), {"method": "tdvp_ps2", "limits": tagl}, rep)
+                    if tagl == "complete":
+                        ref_ = scipy.linalg.expm(-1j * (0.3 / hn) * Hd) @ v0_
+                        err = np.linalg.norm(S.dense(r) - ref_)
+                        bnd = 50 * solver_bound(r.evolve_config, n, max(1.0, np.linalg.norm(v0_))) + 1e-7
+                        led.check(err <= bnd, "post:Mps.evolve[tdvp_ps2]:per_bond_limits_of_the_full_space_lose_nothing", "MatrixProduct._update_mps",
+                                  f"error {err:.3e} > {bnd:.3e} with limits {lims} (complete bond dimensions)", key + ("err",), {"method": "tdvp_ps2"}, rep)
     elif kind == "history":
         _, name, n, seed, tier = case
         rng = np.random.default_rng([seed, n, 939, sum(map(ord, name))])
@@ -551,6 +582,8 @@ def check(run):
     run_cases(run, worker, cases)
     from props import C09_sym
     guarded(run, C09_sym.prove)
+    from props import C04_kernel
+    guarded(run, C04_kernel.prove, only_updates=True)       # the renormalised-basis update of tdvp_ps2 (incl. the per-bond limit probe) in kernel-stub mode
     run.rule = ("models {spin+qn, electron-phonon, spin} with dense reference (dim <= 72/200) x 8 schemes x local solvers {krylov, RK45} x |H|dt in {0.1, 0.3, 1.0}; "
                 "ten RK tableaux rotated over seeds; split U(t) vs U(t/2)U(t/2); adaptive vs exact; TDVP-PS at bond limits 1,2,3 over 3 steps (norm, energy, limit); "
                 "random histories of 5 scheme switches; density-operator form; time-dependent H(t) for the RK schemes; the VMF right-hand side (func_vmf, captured through solve_ivp) vs the "
